@@ -533,7 +533,9 @@ def run(chk):
     chk.add_tlc(rt, 'trace-validation(%d documents)' % len(lines))
     rej = [p for tag_, p in rt.prints if tag_ == 'REJ']
     if not rej:
-        raise MachineryError('C04: trace validation printed no verdict:\n' + rt.out[-3000:])
+        if not rt.violated:
+            raise MachineryError('C04: trace validation printed no verdict:\n' + rt.out[-3000:])
+        rej = [{}]      # TLC stopped at the invariant violation before the verdict was printed: reported below
     chk.traces += len(lines)
     if rt.violated:
         chk.violation('trace-invariant:' + ','.join(rt.violated),
